@@ -165,7 +165,7 @@ package state
 //@   note partially verified: the state-tree KEY every read and write of this accessor goes to is checked (call-site obligation, key identity = key format and argument values); what the stored bytes mean (the ghost ledger clauses above, CBOR round trip) stays assumed (ensures-trusted)
 
 //@ func ImmutableState.Delegation
-//@   props C05 C08
+//@   props C05 C08 C15
 //@   trustframe
 //@   ensures-trusted err != nil ==> unavail(err)
 //@   modifies nothing
@@ -175,7 +175,7 @@ package state
 //@   note partially verified: the state-tree KEY every read and write of this accessor goes to is checked (call-site obligation, key identity = key format and argument values); what the stored bytes mean (the ghost ledger clauses above, CBOR round trip) stays assumed (ensures-trusted)
 
 //@ func MutableState.SetDelegation
-//@   props C05 C08
+//@   props C05 C08 C15
 //@   trustframe
 //@   ensures-trusted err != nil ==> unavail(err)
 //@   requires d != nil
@@ -314,7 +314,7 @@ package state
 //@   ensures err != nil ==> unavail(err)
 
 //@ func ImmutableState.DebondingDelegation
-//@   props C05 C08
+//@   props C05 C08 C15
 //@   trustframe
 //@   modifies nothing
 //@   ensures-trusted err != nil ==> result0 == nil && unavail(err)
@@ -323,7 +323,7 @@ package state
 //@   note partially verified: the state-tree KEY every read and write of this accessor goes to is checked (call-site obligation, key identity = key format and argument values); what the stored bytes mean (the ghost ledger clauses above, CBOR round trip) stays assumed (ensures-trusted)
 
 //@ func MutableState.SetDebondingDelegation
-//@   props C05 C08
+//@   props C05 C08 C15
 //@   trustframe
 //@   modifies GDeb, GDebSum, GWrites, abciAPI.GTreeW
 //@   ensures-trusted abciAPI.OnlyTree(s.ms)
@@ -424,10 +424,15 @@ package state
 //@   modifies c.accounts, anyOf(c.accounts[addr].Escrow.StakeAccumulator.Claims)
 //@   note writes the cached copy of the account's stake accumulator only (frame assumed); nothing reaches the state tree before Commit
 
+//@ ghost var GSetAcct int
+
 //@ func StakeAccumulatorCache.Commit
-//@   trusted
-//@   modifies kvState()
-//@   note writes the cached accounts back through the staking state accessors (frame assumed)
+//@   props C17 C10 C14
+//@   assume-pre staking/state\.MutableState\.SetAccount$
+//@   trustframe
+//@   modifies kvState(), GSetAcct
+//@   loop 1 invariant GSetAcct == old(GSetAcct) + idx()
+//@   note partially verified (was trusted): a successful Commit has written back EVERY cached account (every iteration of the write-back loop performs one successful SetAccount: loop invariant over the counted calls) - also an account whose claim set has become empty: removing an account's last claim is a change like any other, and an account left unwritten keeps the stale claim in the state (seed C17_l skipped accounts without claims). Frame assumed
 
 //@ func StakeAccumulatorCache.CheckStakeClaims
 //@   props C10 C14
